@@ -188,10 +188,10 @@ impl XrefSubSectT {
 
 struct XrefSubSectP;
 
-impl ParsleyParser for XrefSubSectP {
-    type T = LocatedVal<XrefSubSectT>;
-
-    fn parse(&mut self, buf: &mut dyn ParseBufferT) -> ParseResult<LocatedVal<XrefSubSectT>> {
+impl XrefSubSectP {
+    // Parses the header line of a subsection: the number of its first
+    // object and the number of its entries.
+    fn parse_header(&mut self, buf: &mut dyn ParseBufferT) -> ParseResult<(usize, usize)> {
         let start = buf.get_cursor();
 
         // The spec is not clear whether there is any leading or
@@ -224,7 +224,14 @@ impl ParsleyParser for XrefSubSectP {
         // Assume we need one for now.
         let mut ws = WhitespaceEOL::new(false);
         ws.parse(buf)?;
+        Ok((xstart, xcount))
+    }
 
+    // Parses the entries announced by the header of the subsection
+    // that started at `start`.
+    fn parse_entries(
+        &mut self, buf: &mut dyn ParseBufferT, start: usize, xstart: usize, xcount: usize,
+    ) -> ParseResult<LocatedVal<XrefSubSectT>> {
         // Now get the specified number of entries.
         let mut ents = Vec::new();
         for idx in 0 .. xcount {
@@ -246,6 +253,16 @@ impl ParsleyParser for XrefSubSectP {
             start,
             end,
         ))
+    }
+}
+
+impl ParsleyParser for XrefSubSectP {
+    type T = LocatedVal<XrefSubSectT>;
+
+    fn parse(&mut self, buf: &mut dyn ParseBufferT) -> ParseResult<LocatedVal<XrefSubSectT>> {
+        let start = buf.get_cursor();
+        let (xstart, xcount) = self.parse_header(buf)?;
+        self.parse_entries(buf, start, xstart, xcount)
     }
 }
 
@@ -392,12 +409,14 @@ impl ParsleyParser for XrefSectP {
         ws.parse(buf)?;
 
         // There is no specified terminator for an xref section, so
-        // keep consuming xref subsections until we have an error.
+        // keep consuming xref subsections until there is no further
+        // subsection header.
         let mut sects = Vec::new();
         loop {
             let mut p = XrefSubSectP;
-            let sect = p.parse(buf);
-            if let Err(e) = sect {
+            let sect_start = buf.get_cursor();
+            let header = p.parse_header(buf);
+            if let Err(e) = header {
                 // If this is an error on the first subsection, report
                 // this error as the result.
                 if sects.is_empty() {
@@ -405,7 +424,10 @@ impl ParsleyParser for XrefSectP {
                 }
                 break
             }
-            sects.push(sect.unwrap());
+            // Once a header has been accepted, a malformed entry is an
+            // error and not the end of the section.
+            let (xstart, xcount) = header.unwrap();
+            sects.push(p.parse_entries(buf, sect_start, xstart, xcount)?);
         }
         let end = buf.get_cursor();
         Ok(LocatedVal::new(XrefSectT { sects }, start, end))
